@@ -231,6 +231,7 @@ fn check_tok(rng: &mut Rng, st: &mut Stats) {
         profile: rng.chance(1, 20),
         initial_state: Some(real_state(start)),
         last_start_tag: if rng.chance(1, 2) { Some(rng.pick(&["title", "script", "style", "x"]).to_string()) } else { None },
+        set_plaintext_first: rng.chance(1, 30),
     };
     st.case(if n > 2 { Some(hash_str(&format!("t{input}{cuts:?}{policy:?}{start:?}"))) } else { None });
     st.count("tokenizer_only_runs");
